@@ -203,6 +203,22 @@ pub fn run_async_every_op_suspended(s: &Sparse, cfg: &Cfg, strict: bool) -> Impl
     }
 }
 
+/// the same carrier with the input METERED (C10): (result, merged ranges of the bytes the underlying reader delivered)
+pub fn run_async_metered_every_op_suspended(s: &Sparse, cfg: &Cfg, strict: bool) -> (ImplOut, String) {
+    use crate::c10::Meter;
+    let ctl: Shared = Rc::new(RefCell::new(Ctl { alternate: true, ..Default::default() }));
+    let max = 4_000_000;
+    if strict {
+        let mut pn = PendNative { inner: Meter::new(StrictReader::new(s)), ctl };
+        let out = drive(mp4san::sanitize_async_with_config(&mut pn, cfg.build()), max);
+        (out.map(canon).unwrap_or(ImplOut::Panic), pn.inner.ranges_text())
+    } else {
+        let mut pn = PendNative { inner: Meter::new(SeekSkipAdapter(SeekReader::new(s))), ctl };
+        let out = drive(mp4san::sanitize_async_with_config(&mut pn, cfg.build()), max);
+        (out.map(canon).unwrap_or(ImplOut::Panic), pn.inner.ranges_text())
+    }
+}
+
 fn sched_text(s: &[bool]) -> String {
     if s.is_empty() {
         "-".into()
